@@ -74,3 +74,53 @@ PROPS["C20"] = dict(
     exhaustive_note="bounded-exhaustive",
     assumptions=[],
 )
+
+_WALK_NOTE = ("Trusted: TLC; the harness's materialisation of tree values (mkdir/symlink) and the in-process call of find_main with captured "
+              "output. Unreadable directories cannot be produced as root in-process and are exercised by C11's fixture only. Link targets are "
+              "non-links or dangling (no link-to-link chains).")
+
+def _walk(flavour, text, rule, rq, rt):
+    return dict(
+        level_text=text, level_note=_WALK_NOTE,
+        mc=[dict(module="mc/MC_Walk.tla", cfg=dict(quick="mc/MC_Walk_%s_quick.cfg" % flavour, thorough="mc/MC_Walk_%s_thorough.cfg" % flavour), xmx="16g")],
+        record=dict(quick=rq, thorough=rt), selftest=dict(quick=40, thorough=200),
+        trace=dict(module="trace/T_Walk.tla", cfg="trace/T_Walk.cfg"), trace_chunk=800,
+        rule=rule, exhaustive_note="bounded-exhaustive over trees up to N nodes", assumptions=[])
+
+PROPS["C02"] = _walk("C02",
+    "The reference walk (which entries, at which depth, under -P/-H/-L, with cycle and dangling-link rules) is a TLA+ function; TLC enumerates every "
+    "tree up to N nodes x follow mode x every (mindepth, maxdepth) pair incl. min > max x -depth, checks the laws (range, exactly-once, physical "
+    "completeness, -H = -P below the starting point, dangling links visited) and prints each case; the harness materialises the tree and runs the real "
+    "find on it; random trees up to 40 nodes with link cycles, several starting points and unsorted runs are validated by TLC.",
+    "MC: all trees up to N nodes over 2 names, kinds {dir, file, link -> earlier non-link | dangling} x {P,H,L} x min 0..3 x max {0,1,2,none} x -depth; "
+    "trace: random trees (1..40 nodes), spelling variants of starting points, -follow/-P/-H/-L, sorted and unsorted (multiset + pre/post-order).",
+    500, 12000)
+PROPS["C03"] = _walk("C03",
+    "Same reference walk with -prune and -depth: TLC enumerates every tree up to N nodes x every set of at most two pruned directories x -depth on/off "
+    "x depth ranges, checks that pruning removes exactly the strict descendants (in place) and is a no-op under -depth, pre-/post-order; each case is "
+    "replayed on the real find with -sorted (exact sequence), with the prune test at three different places of the expression; random larger cases via TLC.",
+    "MC: all trees up to N nodes x {P,L} x subsets (<= 2) of directory paths pruned x -depth x 2 depth ranges, -sorted; "
+    "trace: random trees with random prune sets, three expression shapes, sorted and unsorted.",
+    500, 12000)
+PROPS["C18"] = _walk("C18",
+    "Starting points: TLC enumerates lists of one or two starting points (every top-level node in three spellings, plus a missing one) x {P,H} x depth "
+    "ranges, both as operands and through -files0-from, and prints the prescribed output (paths begin with the spelling as given, order of operands, "
+    "missing operand -> diagnostic + non-zero exit, others still processed); replayed on the real find; random cases (./x, x/, x//, ../w/x, .//x, duplicates, "
+    "with or without final NUL) validated by TLC.",
+    "MC: all trees up to N nodes x lists of <= 2 starting points over spellings {x, ./x, x/} and a missing name x operands vs -files0-from; "
+    "trace: random trees, 1..3 starting points, 6 spellings, missing names, -files0-from with/without final NUL.",
+    500, 12000)
+
+
+def m_H_depth_symlink_root(fail):
+    """-H with -depth and a starting point that is a symbolic link to a directory."""
+    i = fail["in"]
+    cfg = i["cfg"]
+    if cfg.get("mode") != "H" or not cfg.get("depth"):
+        return False
+    t = i["tree"]
+    for r in i["roots"]:
+        n = r["node"]
+        if n and t[n - 1]["kind"] == "l" and t[n - 1]["target"] and t[t[n - 1]["target"] - 1]["kind"] == "d":
+            return True
+    return False
